@@ -502,6 +502,14 @@ pub async fn build_primary() -> Option<Primary> {
 /// `bulk`: that many extra RRsets of about 1000 octets each, present in
 /// every version (for transfers that need more than one 64 KiB message).
 pub async fn build_primary_with(bulk: usize) -> Option<Primary> {
+    build_primary_with2(bulk, 0).await
+}
+
+/// `hosts`: that many more tiny RRsets (one address each), present in every
+/// version - a zone with more RRsets than the XFR middleware's zone walk can
+/// hand over in one go (its channel holds 100), all of them still fitting
+/// into a single response message.
+pub async fn build_primary_with2(bulk: usize, hosts: usize) -> Option<Primary> {
     let all = universe_names();
     let n_names = 3 + sim::draw("focus.n_names", 6) as usize;
     let mut pool = all.clone();
@@ -528,6 +536,17 @@ pub async fn build_primary_with(bulk: usize) -> Option<Primary> {
     for _ in 0..sim::draw("init.n", 12) {
         let r = gen_rec(&names);
         apply_add(&mut c, &r);
+    }
+    for i in 0..hosts {
+        apply_add(
+            &mut c,
+            &RecSpec {
+                owner: format!("h{}.{}", i, APEX),
+                rtype: Rtype::A,
+                ttl: 300,
+                rdata: format!("198.51.{}.{}", 100 + i / 250, 1 + i % 250),
+            },
+        );
     }
     for i in 0..bulk {
         let chunk = |j: usize| format!("\"{}\"", format!("b{}c{}-", i, j).repeat(40).chars().take(250).collect::<String>());
